@@ -325,6 +325,8 @@ class SymNP(types.ModuleType):
     def zeros(self, shape, dtype=None, **k):
         from . import records
         if isinstance(dtype, (records.SymDType, list)):
+            if isinstance(shape, tuple) and shape == ():
+                return records.SymRecord(records.SymDType(dtype))      # 0-d structured array ~ one record
             return records.SymRecArray(shape if isinstance(shape, int) else shape[0], dtype)
         if _is_float_dtype(dtype):
             return self._fill(shape, SR(F(0)))
